@@ -66,6 +66,12 @@ wrap_line = partial(wrap_line_base, pad_func=pad_fortran)
 
 # {{{ name manager
 
+def make_fortran_identifier_from_name(name):
+    # Fortran identifiers are not case sensitive, so names that differ only
+    # in case must not be mapped to identifiers that differ only in case.
+    return make_identifier_from_name(name).lower()
+
+
 class FortranNameManager:
     """Maps names that appear in intermediate code to Fortran identifiers.
     """
@@ -73,11 +79,16 @@ class FortranNameManager:
     def __init__(self):
         from pytools import UniqueNameGenerator
         self.name_generator = UniqueNameGenerator()
-        self.local_map = KeyToUniqueNameMap(name_generator=self.name_generator)
+        self.local_map = KeyToUniqueNameMap(
+                key_translate_func=make_fortran_identifier_from_name,
+                name_generator=self.name_generator)
         self.global_map = KeyToUniqueNameMap(start={
                 "<t>": "dagrt_t", "<dt>": "dagrt_dt"},
+                key_translate_func=make_fortran_identifier_from_name,
                 name_generator=self.name_generator)
-        self.function_map = KeyToUniqueNameMap(name_generator=self.name_generator)
+        self.function_map = KeyToUniqueNameMap(
+                key_translate_func=make_fortran_identifier_from_name,
+                name_generator=self.name_generator)
 
     def name_global(self, var):
         """Return the identifier for a global variable."""
